@@ -1,0 +1,54 @@
+// Copyright ©2012 The bíogo Authors. All rights reserved.
+// Use of this source code is governed by a BSD-style
+// license that can be found in the LICENSE file.
+
+//go:build verif
+
+package bgzf
+
+import (
+	"bytes"
+	"compress/gzip"
+)
+
+// VerifHook is called, when non-nil, at the suspension points of the
+// Reader and Writer (channel operations and goroutine starts). It must
+// be set before any Reader or Writer is created and not changed while
+// one is live. It is only available with the verif build tag.
+var VerifHook func(point string, a, b int64)
+
+func verifPoint(point string, a, b int64) {
+	if h := VerifHook; h != nil {
+		h(point, a, b)
+	}
+}
+
+func verifHeader(base, next int64) gzip.Header {
+	size := next - base - 1
+	return gzip.Header{
+		OS:    0xff,
+		Extra: []byte{'B', 'C', 2, 0, byte(size), byte(size >> 8)},
+	}
+}
+
+// VerifNewBlock returns a Block in the state a Reader leaves a block in
+// after decompressing the member at base whose successor starts at next.
+// used is the value its Used method reports.
+func VerifNewBlock(base, next int64, used bool, data []byte) Block {
+	b := &block{}
+	VerifRebase(b, base, next, used, data)
+	return b
+}
+
+// VerifRebase overwrites b with another member, as a Reader does when it
+// recycles a Block that a Cache has handed back to it.
+func VerifRebase(blk Block, base, next int64, used bool, data []byte) {
+	b := blk.(*block)
+	b.owner = nil
+	b.used = false
+	b.setBase(base)
+	b.setHeader(verifHeader(base, next))
+	n := copy(b.data[:], data)
+	b.buf = bytes.NewReader(b.data[:n])
+	b.used = used
+}
